@@ -131,10 +131,13 @@ def check_release(program, rep):
     n_exc = 0
     bad = {}
     loop_leaves = set()
-    for lp in ast.walk(f.node):
-        if isinstance(lp, ast.While):
-            for x in ast.walk(lp.test):
-                loop_leaves.add(id(x))
+    disp_cls = evrules.dispatcher_class(program)
+    for m in list(disp_cls.methods.values()) + [f]:
+        # the release loop may live in a private helper of the class
+        for lp in ast.walk(m.node):
+            if isinstance(lp, ast.While):
+                for x in ast.walk(lp.test):
+                    loop_leaves.add(id(x))
 
     def flag(rule, node, why):
         bad.setdefault(rule, (node, why))
@@ -257,8 +260,10 @@ def check_release(program, rep):
                    line=f.node.lineno)
     # other writers of the queue in the package
     disp = evrules.dispatcher_class(program)
+    inlined = {e.func for ex in exits for e in ex.state.trace
+               if e.kind == 'enter' and e.func is not None}
     for g in program.all_functions():
-        if g is f:
+        if g is f or g in inlined:
             continue
         for n in ast.walk(g.node):
             if isinstance(n, ast.Call) and isinstance(n.func, ast.Attribute) \
